@@ -592,8 +592,8 @@ def correspondence(case, impl, model):
     init = impl.get("init")
     if init is not None and "ok" in init and init["ok"] != model["initVersion"]:
         return f"constructor: real version {init['ok']} model {model['initVersion']}"
-    if model.get("upgradeAgrees") is False and model.get("wf"):
-        return "model self-check: upgrade spec differs from convertDict on a well-formed history"
+    if model.get("upgradeAgrees") is False:
+        return "model self-check: upgrade spec differs from convertDict"
     return None
 
 
